@@ -119,12 +119,19 @@ def r3(R, repo):
     R.check(isinstance(last, ast.Raise) and astu.raised_name(last) == 'InvalidFilterError', key_of(f, 'falls through to InvalidFilterError'), f,
             '%s must raise InvalidFilterError for anything that is not a filter' % name)
   # K1 ordering is implied semantically by C14.R2 (a str shape answers True to the Collection test); recorded as an instance
-  f = mod.func('in_filter')
-  c = cfg_of(f)
-  ts = [n for n in c.nodes if n.kind == 'if' and astu.isinstance_test(n.ast)]
-  order = [astu.isinstance_test(n.ast)[1][0].split('.')[-1] for n in ts]
-  R.judge('str' in order and 'Collection' in order, 'str' in order and 'Collection' in order and order.index('str') < order.index('Collection'), key_of(f, 'str before Collection'), f,
-          'in_filter must test str before typing.Collection (a str is a Collection: the other order is a substring match)')
+  for name in ('in_filter', 'is_filter_empty', 'filter_to_set'):
+    f = mod.func(name)
+    c = cfg_of(f)
+    ts = [n for n in c.nodes if n.kind == 'if' and astu.isinstance_test(n.ast)]
+    order = [astu.isinstance_test(n.ast)[1][0].split('.')[-1] for n in ts]
+    if name != 'in_filter' and not ('str' in order and 'Collection' in order):
+      continue
+    # order along the control flow: the Collection test must not be reachable before the str test has been answered "no"
+    s_t = [n for n in ts if astu.isinstance_test(n.ast)[1][0].split('.')[-1] == 'str']
+    c_t = [n for n in ts if astu.isinstance_test(n.ast)[1][0].split('.')[-1] == 'Collection']
+    ok = bool(s_t) and bool(c_t) and all(c.edge_guarded(ct, s_t[0], 'F') for ct in c_t)
+    R.judge(bool(s_t) and bool(c_t), ok, key_of(f, 'str before Collection'), f,
+            '%s must test str before typing.Collection (a str is a Collection of its characters: in the other order a name filter matches by character / substring)' % name)
 
 
 @rule('C14.R4', 'K2', 3, 'group_collections: each collection lands in exactly the first matching group')
@@ -358,6 +365,11 @@ def check_oftype(R, repo):
     return
   if len(subs) == 1 and _role(subs[0].args[0]) == 'cand' and _role(subs[0].args[1]) == 'filter' and any(isinstance(c_, ast.Call) and astu.call_name(c_) == 'isinstance' and astu.src(c_.args[0]) == x0 and astu.src(c_.args[1]) == 'self.type' for c_ in astu.func_calls(f0)):
     R.ok(key_of(f0, 'isinstance or issubclass of .type'), (f0, subs[0]))
+    return
+  exact = [c_ for c_ in ast.walk(f0.node) if isinstance(c_, ast.Compare) and len(c_.ops) == 1 and isinstance(c_.ops[0], (ast.Is, ast.Eq)) and
+           {_role(c_.left), _role(c_.comparators[0])} == {'cand', 'filter'}]
+  if not subs and exact:
+    R.fail(key_of(f0, 'isinstance or issubclass of .type'), (f0, exact[0]), '`%s` matches a state only when its recorded type *is* the filter\'s type: states of subclasses (a LoRAParam for a Param filter) are no longer selected, while Variable objects of the same subclass still are (isinstance)' % astu.short(exact[0]))
     return
   f, e = _ret_expr(mod, 'OfType.__call__')
   x = astu.params(f.node)[2]
